@@ -155,9 +155,16 @@ func (p *peer) logEvent(e Event) {
 
 // ---------- reader ----------
 
+func (p *peer) releaseAll() {
+	for _, rt := range p.rts {
+		rt.releaseRead()
+	}
+}
+
 func (p *peer) readLoop() {
 	defer close(p.readerDone)
 	defer p.wake()
+	defer p.releaseAll()
 	pre := make([]byte, len(clientPreface))
 	if _, err := io.ReadFull(p.conn, pre); err != nil || string(pre) != clientPreface {
 		p.mu.Lock()
@@ -293,6 +300,7 @@ func (p *peer) wrote(err error, e Event) {
 	if err != nil {
 		if p.writeErr == nil {
 			p.writeErr = err
+			p.releaseAll()
 		}
 		return
 	}
